@@ -573,7 +573,7 @@ func c02Run(w *verifrt.World, tier Tier) *RunResult {
 func init() {
 	register(&Check{
 		ID: "C02", Level: "exploration", Run: c02Run,
-		Runs:       [2]int{60000, 1500000},
+		Runs:       [2]int{60000, 12000000},
 		MaxSeconds: [2]int{90, 1500},
 		Rule: "one run = 2-8 rules whose firing condition is a token the model can see (REQUEST_URI, REQUEST_HEADERS, REQUEST_BODY, RESPONSE_STATUS, RESPONSE_HEADERS, RESPONSE_BODY, SecAction) with deny|drop|redirect|pass, optional status, phases 1-5, engine On|DetectionOnly|Off, optionally one ctl:ruleEngine switch, optionally small body limits; " +
 			"the canonical call list is delivered as is (1/3) or through an unreliable channel that drops, duplicates and reorders calls (<=24 delivered). After every call the reference phase machine checks: rules newly fired = exactly the visible rules of the phase the marker shows to have run, stopping at the first disruptive one when On; no phase 1-4 twice; nothing of phases 1-4 after an interruption; " +
